@@ -150,6 +150,33 @@ def run(ctx):
         metas[r] = (insts, ["switch:1x2"])
         nsweep += 1
     ctx.coverage["definer_opcodes_swept"] = nsweep
+    # a parse that is *aborted* (parse error, consumer stop, consumer error) after it has seen type declarations, followed by a parse
+    # that uses the same ids without declaring them: one word per literal, whatever the earlier parse had declared
+    for w in (64, 128, 8):
+        for kind in ("Constant", "Switch"):
+            decl = [instgen.Inst(g.opv["TypeInt"], "TypeInt", None, 300, [instgen.Op("w", L32, w), instgen.Op("w", L32, 0)]),
+                    instgen.Inst(g.opv["Undef"], "Undef", 300, 301, [])]
+            wa = instgen.header()
+            for i in decl:
+                wa += i.words()
+            aborted = ["parse " + instgen.to_bytes(wa + [0]).hex(),              # WordCountZero after the declarations
+                       "parse " + instgen.to_bytes(wa).hex() + " 3:s",           # consumer stops at the second instruction
+                       "parse " + instgen.to_bytes(wa).hex() + " 4:e",           # consumer error at finalize
+                       "parse " + instgen.to_bytes(wa + [0x00030000 | g.opv["Constant"], 300]).hex()]   # truncated instruction
+            if kind == "Constant":
+                use = [instgen.Inst(g.opv["Constant"], "Constant", 300, 302, g.literal(False))]
+                exp = ["const:1"]
+            else:
+                use = [instgen.Inst(g.opv["Switch"], "Switch", None, None,
+                                    [instgen.Op("w", g.vix["IdRef"], 301), instgen.Op("w", g.vix["IdRef"], 9)] + g.literal(False) + [instgen.Op("w", g.vix["IdRef"], 9)])]
+                exp = ["switch:1x1"]
+            wb = instgen.header()
+            for i in use:
+                wb += i.words()
+            rb = "parse " + instgen.to_bytes(wb).hex()
+            for ra in aborted:
+                reqs.append(ra); metas.setdefault(ra, (None, None))
+                reqs.append(rb); metas[rb] = (use, exp)
 
     def oracle(req, resp):
         if resp.startswith("panic"):
@@ -157,6 +184,8 @@ def run(ctx):
         if req.startswith("asm "):
             return None
         insts, expect = metas[req]
+        if insts is None:
+            return None
         parts = resp.split(" | ")
         got = parts[3].split(" ") if parts[3] else []
         if expect and expect[-1] == "unsupported":
@@ -174,9 +203,9 @@ def run(ctx):
     impl, model = C.differential(ctx, reqs, "parse-literal-histories", oracle=oracle, shrink=False)
     ex = {}
     for r, (insts, expect) in metas.items():
-        for e in expect:
+        for e in (expect or []):
             ex[e.split(":")[0] + (":" + e.split("x")[-1] if "x" in e else ":" + e.split(":")[-1] if ":" in e else "")] = ex.get(e, 0) + 1
-        ctx.distinct.add(tuple(expect))
+        ctx.distinct.add(tuple(expect or ()))
     ctx.coverage["consumer_kinds"] = dict(sorted(ex.items())[:20])
     ctx.samples = [{"request": reqs[i][:200], "implementation": impl[i][:200]} for i in (0, len(reqs) // 2)]
     ctx.assumptions += ["ids are deliberately reused across consecutive parses handled by one harness process, so state leaking between parses would surface as a disagreement",
@@ -194,6 +223,7 @@ def replay(ctx, path):
     with C.Lock():
         C.translate_all(ctx)
         C.build_harness(ctx, bins=("impl",))
-    a, b = C.run_impl(ctx, [req])[0], C.run_driver(ctx, [req])[0]
-    print("request:", req[:300]); print("implementation:", a[:300]); print("model:", b[:300])
+    hist = (r.get("witness") or {}).get("history") or []
+    a, b = C.run_impl(ctx, hist + [req])[-1], C.run_driver(ctx, hist + [req])[-1]
+    print("history:", len(hist), "requests"); print("request:", req[:300]); print("implementation:", a[:300]); print("model:", b[:300])
     return 1 if C.canon(a) != C.canon(b) else 0
